@@ -141,7 +141,7 @@ def shard_plan(cases, n_core, n_seed):
     return plans
 
 
-GROUP_SHARDS = {"single": (14, 4), "array": (8, 2), "nc": (6, 2), "enumf": (4, 2), "custom": (8, 2), "mixed": (6, 3), "base": (4, 2), "bld": (6, 2), "dbgf": (4, 2), "probe11": (2, 1), "constf": (10, 4)}
+GROUP_SHARDS = {"single": (14, 4), "array": (8, 2), "nc": (6, 2), "enumf": (4, 2), "custom": (8, 2), "mixed": (6, 3), "base": (4, 2), "bld": (6, 2), "dbgf": (4, 2), "probe11": (2, 1), "constf": (10, 4), "mirif": (4, 1)}
 
 
 class Workspace:
@@ -298,6 +298,38 @@ class Workspace:
             log("dropping %d cases that do not compile and rebuilding" % new)
             self.generate(groups, drop=drop_ids)
         raise Inconclusive("build did not converge after dropping non-compiling cases")
+
+    def miri_run(self, group, prop, n_slices=16, extra=(), timeout=5400):
+        """runs the group's runner under Miri (cargo +nightly miri run), sharded over n_slices processes; returns list of reports"""
+        import concurrent.futures
+        target = os.path.join(TARGET, "miri")
+        env = dict(ENV, CARGO_TARGET_DIR=target)
+        # build once (also builds the proc macro natively with the nightly toolchain)
+        base = ["cargo", "+nightly", "miri", "run", "--offline", "-q", "-p", "run_%s" % group, "--"]
+
+        def one(k):
+            cmd = base + ["--prop", prop, "--tier", self.tier, "--seed", str(self.seed), "--profile", "miri", "--threads", "1", "--miri-workload", "--slice", "%d/%d" % (k, n_slices)] + list(extra)
+            try:
+                p = subprocess.run(cmd, cwd=self.root, env=env, stdout=subprocess.PIPE, stderr=subprocess.PIPE, timeout=timeout)
+            except subprocess.TimeoutExpired:
+                raise Inconclusive("Miri watchdog (%ds) fired for %s slice %d" % (timeout, group, k))
+            out = p.stdout.decode(errors="replace")
+            line = [l for l in out.splitlines() if l.startswith('{"prop"')]
+            if p.returncode != 0 or not line:
+                err = p.stderr.decode(errors="replace")
+                if "Undefined Behavior" in err or "error: unsupported operation" in err:
+                    return dict(miri_error=err[-3000:], slice=k)
+                raise Inconclusive("Miri run failed for %s slice %d (rc=%d): %s" % (group, k, p.returncode, err[-1200:]))
+            rep = json.loads(line[-1])
+            rep["group"] = group
+            rep["slice"] = k
+            return rep
+        t0 = time.time()
+        first = one(0)   # serialises the build
+        with concurrent.futures.ThreadPoolExecutor(max_workers=16) as ex:
+            rest = list(ex.map(one, range(1, n_slices)))
+        log("miri %s %s: %d slices, %.1fs" % (group, prop, n_slices, time.time() - t0))
+        return [first] + rest
 
     def run(self, group, profile, prop, extra=(), timeout=3600):
         out = os.path.join(OUT, "run", "%s-%s-%s-%s-%d.json" % (prop, self.tier, group, profile, os.getpid()))
